@@ -24,7 +24,7 @@ def main():
             else:
                 missed.append(f"{k} (exit {v.get('exit')})")
         title = (m.get("title") or m.get("what_changed") or "")
-        title = " ".join(str(title).split())[:110]
+        title = " ".join(str(title).split())[:110].replace("|", "/")
         rows.append((m["id"], "yes" if m.get("confirmed") else "NO", title,
                      "; ".join(caught) or "-", "; ".join(missed) or "-"))
     print("| seeded change | confirmed | what | caught by | not caught by |")
